@@ -7,6 +7,7 @@ import (
 	"go/ast"
 	"io/ioutil"
 	"math/rand"
+	"net/http/httptest"
 	"os"
 	"os/exec"
 	"reflect"
@@ -42,6 +43,7 @@ import (
 	"github.com/prometheus/prometheus/model/labels"
 	"gopkg.in/yaml.v2"
 	"tkestack.io/kvass/pkg/prom"
+	"tkestack.io/kvass/pkg/shard"
 )
 
 // ---------------------------------------------------------------- translator: the type graph of config.Config
@@ -400,6 +402,7 @@ type chObs struct {
 	Hash1, Hash2            string
 	SameAsFresh             bool   // History: hash after the older configuration == hash of a fresh process
 	FreshHash               string `json:",omitempty"`
+	ServiceHashes           string `json:",omitempty"` // set when the sidecar service reported other hashes than the content's
 	LoadErr                 string
 }
 
@@ -417,6 +420,47 @@ func chCompute(text string) (chHashes, error) {
 		return chHashes{}, err
 	}
 	return chHashes{Hash: info.ConfigHash, StructHash: fmt.Sprint(sh)}, nil
+}
+
+// chViaService: what a real sidecar Service reports over its API (GET runtimeinfo) as it is used by the coordinator in
+// one cycle: read the hash, push the other configuration, read again - both reads within milliseconds
+func chViaService(base, edited string) (h1, h2 string, err error) {
+	dir, err := ioutil.TempDir(os.Getenv("KV_SCRATCH"), "cfgsvc")
+	if err != nil {
+		return "", "", err
+	}
+	defer os.RemoveAll(dir)
+	w := newScWorld(dir, 0)
+	if err := w.start(); err != nil {
+		return "", "", err
+	}
+	post := func(text string) error {
+		body, _ := json.Marshal(shard.UpdateConfigRequest{RawContent: text})
+		rec := httptest.NewRecorder()
+		w.svc.ServeHTTP(rec, httptest.NewRequest("POST", "/api/v1/status/config/", bytes.NewReader(body)))
+		if !strings.Contains(rec.Body.String(), "success") {
+			return fmt.Errorf("post config: %s", rec.Body.String())
+		}
+		return nil
+	}
+	read := func() (string, error) {
+		var rt shard.RuntimeInfo
+		if err := w.get("/api/v1/shard/runtimeinfo/", &rt); err != nil {
+			return "", err
+		}
+		return rt.ConfigHash, nil
+	}
+	if err = post(base); err != nil {
+		return
+	}
+	if h1, err = read(); err != nil {
+		return
+	}
+	if err = post(edited); err != nil {
+		return
+	}
+	h2, err = read()
+	return
 }
 
 // chComputeAfter: the hash of `text` in a process whose ConfigManager loaded `before` first
@@ -505,6 +549,15 @@ func cfghashRun(in interface{}) (string, interface{}, map[string]int) {
 		if fresh, errf := chCompute(edited); errf == nil && err2 == nil {
 			ob.FreshHash = fresh.Hash
 			ob.SameAsFresh = fresh.Hash == h2.Hash
+		}
+		// ... and through the API of a real sidecar service, read - push - read
+		if fb, errb := chCompute(base); errb == nil && err2 == nil {
+			s1, s2, errs := chViaService(base, edited)
+			st["via_service"]++
+			if errs != nil || s1 != fb.Hash || s2 != ob.FreshHash {
+				ob.SameAsFresh = false
+				ob.ServiceHashes = fmt.Sprint(s1, " ", s2, " ", errs)
+			}
 		}
 	} else {
 		h2, err2 = chComputeMaybeChild(edited, !c.ChildBase)
